@@ -6,14 +6,26 @@ package blake2s
 
 //@ pred dinv(d) = 1 <= d.size && d.size <= 32 && 0 <= d.offset && d.offset <= 64 && 0 <= d.keyLen && d.keyLen <= 32
 
+//@ ghostdecl fbuf (Array Int Int)
+// cnt: the 64-bit byte counter t; the blocks compressed so far are recorded in the ghost stream of the
+// counter object (flen, fbuf), the flag of the last compression in lastflag
+//@ pred cntof(c) = c[0] + c[1] * 4294967296
+
 //@ func hashBlocks
-//@ props C07
+//@ props C05 C07
 //@ trusted
-//@ note amd64 dispatcher over SSE2/SSSE3/SSE4 assembly and hashBlocksGeneric: assumed to write only *h and *c
+//@ note amd64 dispatcher over SSE2/SSSE3/SSE4 assembly and hashBlocksGeneric: not verified; assumed to write only *h and *c, to advance the counter by the bytes compressed and (ghost) to record those bytes
 //@ nonnil h c
 //@ may_panic_when len(blocks) % 64 != 0
 //@ modifies *h
 //@ modifies *c
+//@ modifies ghost(c, flen)
+//@ modifies ghost(c, fbuf)
+//@ modifies ghost(c, lastflag)
+//@ ensures cntof(c) == (old(cntof(c)) + len(blocks)) % 18446744073709551616
+//@ ensures ghost(c, flen) == old(ghost(c, flen)) + len(blocks) && ghost(c, lastflag) == flag
+//@ ensures forall(q, old(ghost(c, flen)), old(ghost(c, flen)) + len(blocks), ghost(c, fbuf)[q] == blocks[q - old(ghost(c, flen))])
+//@ ensures forall(q, 0, old(ghost(c, flen)), ghost(c, fbuf)[q] == old(ghost(c, fbuf)[q]))
 
 //@ func consumeUint32
 //@ props C07
@@ -23,17 +35,30 @@ package blake2s
 //@ ensures result1 == b[3] + b[2]*256 + b[1]*65536 + b[0]*16777216
 
 //@ func (*digest).Write
-//@ props C07
+//@ props C05 C07
+//@ reindex
 //@ requires dinv(d)
 //@ requires ref(p) != ref(d.block[:])
 //@ modifies d.*
+//@ modifies ghost(&d.c, flen)
+//@ modifies ghost(&d.c, fbuf)
+//@ modifies ghost(&d.c, lastflag)
+// C05 (for states whose counter agrees with the ghost stream):
+//@ ensures implies(old(binv(d)), binv(d) && tot(d) == old(tot(d)) + len(p))
+//@ ensures implies(old(binv(d)), forall(q, 0, old(tot(d)), byt(d, q) == old(byt(d, q))))
+//@ ensures implies(old(binv(d)), forall(q, old(tot(d)), old(tot(d)) + len(p), byt(d, q) == p[q - old(tot(d))]))
+//@ ensures implies(old(binv(d)) && old(tot(d)) + len(p) > 0, d.offset > 0)
+//@ canary ensures implies(old(binv(d)), tot(d) == old(tot(d)))
 //@ ensures dinv(d) && n == len(p) && err == nil
 //@ ensures d.size == old(d.size) && d.keyLen == old(d.keyLen)
 
 //@ func (*digest).finalize
-//@ props C07
+//@ props C05 C07
 //@ nonnil hash
 //@ requires dinv(d)
+// C05: the last block is the buffer padded with zeros, compressed with the finalisation flag and the counter set to the message length
+//@ check_at "hashBlocks(&h, &c, 0xFFFFFFFF, block[:])" (cntof(c) + 64) % 18446744073709551616 == (cntof(d.c) + d.offset) % 18446744073709551616
+//@ check_at "hashBlocks(&h, &c, 0xFFFFFFFF, block[:])" forall(q, 0, 64, block[q] == ite(q < d.offset, d.block[q], 0))
 //@ modifies *hash
 //@ ensures d.size == old(d.size) && d.offset == old(d.offset)
 
@@ -57,3 +82,9 @@ package blake2s
 // accepts exactly the well-formed states (in particular every state MarshalBinary produces)
 //@ ensures iff(result == nil, len(b) == 109 && b[0] == 'b' && b[1] == '2' && b[2] == 's' && 1 <= b[43] && b[43] <= 32 && b[108] <= 64)
 //@ canary ensures result == nil
+
+// ---- C05: BLAKE2s block bookkeeping (RFC 7693 section 3.3) ----
+//@ pred fl(d) = ghost(&d.c, flen)
+//@ pred binv(d) = fl(d) >= 0 && fl(d) % 64 == 0 && cntof(d.c) == fl(d) % 18446744073709551616 && implies(d.offset == 0, fl(d) == 0)
+//@ pred tot(d) = fl(d) + d.offset
+//@ pred byt(d, q) = ite(q < fl(d), ghost(&d.c, fbuf)[q], d.block[q - fl(d)])
